@@ -787,6 +787,10 @@ impl Fl {
 
 const NR: usize = 4; // receivers
 const NI: usize = 5; // observed indices 0..=4
+/// indices that no tree contains: aliases of 0..=4 under any power-of-two folding, word boundaries, extremes
+const FAR_INDICES: [u32; 50] = [
+    5, 7, 8, 9, 15, 16, 17, 18, 19, 20, 31, 32, 33, 34, 35, 36, 63, 64, 65, 66, 67, 68, 127, 128, 129, 130, 131, 132, 255, 256, 257, 258, 259, 260, 511, 512, 513, 1024, 1027, 4096, 65536, 65539, 1 << 20, 1 << 24, (1 << 24) + 2, 1 << 31, (1 << 31) + 1, (1 << 31) + 4, u32::MAX - 1, u32::MAX,
+];
 
 /// (index field, receiver number, amount) of every leaf of the three distribution trees.
 /// Sorted flavours: T0 balanced 4 leaves; T1 three leaves (odd node carried up) with index 0
@@ -1242,6 +1246,14 @@ impl World for Dist {
         if matches!(op, Op::Advance(_)) {
             ensure!(post == m.obs, "claimed-never-reverts", "after {:?}: contract shows {:?}, before it was {:?}", op, post, m.obs);
         } else if ok {
+            // no index outside the trees can ever have been claimed: whatever encoding the flags
+            // use, an accepted claim must not make any OTHER index read as claimed
+            for j in FAR_INDICES {
+                let v = view(&i.e, &i.c, "is_claimed", (j,).into_val(&i.e)).map_err(|x| Violation::new("getter", format!("is_claimed({j}): {x:?}")))?;
+                let c = bool::try_from_val(&i.e, &v).map_err(|_| Violation::new("getter", "is_claimed: not a bool".into()))?;
+                ensure!(!c, "claimed-exactly-this-index-paid-exactly-once", "after accepted {:?}: is_claimed({}) = true although no claim for index {} was ever made", op, j, j);
+            }
+            cx.stats.count("far-index-probes", FAR_INDICES.len() as u64);
             ensure!(
                 post == m.obs,
                 "claimed-exactly-this-index-paid-exactly-once",
